@@ -3,6 +3,7 @@ package props
 import (
 	"encoding/json"
 	"html"
+	"strconv"
 	"net/url"
 	"regexp"
 	"strings"
@@ -20,6 +21,18 @@ type c13Case struct {
 	Esc string `json:"esc"`
 	S   sb.BS  `json:"s"`
 	T   sb.BS  `json:"t,omitempty"` // second part for the homomorphism check
+}
+
+// c13Seq is a sequence of escaper calls in one worker process.
+type c13Seq struct {
+	Steps []c13Case `json:"steps"`
+}
+
+func hashKey(s string) string {
+	if len(s) > 256 {
+		return s[:128] + "#" + strconv.Itoa(len(s)) + "#" + s[len(s)-96:]
+	}
+	return s
 }
 
 var escapers = []string{"html", "html_attr", "js", "css", "url"}
@@ -240,6 +253,29 @@ func init() {
 		return nil
 	})
 
+	seq := NewSub(p, "sequence", func(c *Ctx, cs *c13Seq) *Fail {
+		total := 0
+		for _, st := range cs.Steps {
+			r := c.SB.Do(&sb.Req{Op: "escape", Name: st.Esc, Strs: []string{string(st.S)}, DeadlineMs: 10000})
+			if r.Fatal() || r.Status != "ok" {
+				return fatalFail(r)
+			}
+			total += len(st.S)
+			if f := c13Judge(st.Esc, string(st.S), r.Strs[0]); f != nil {
+				if k := c.Known.Match("C13", f.Sig); k != nil {
+					c.Ev.S.Known[k.ID]++
+					continue
+				}
+				f.Sig = "sequence:" + f.Sig
+				f.Expected, f.Observed = clip(f.Expected, 300), clip(f.Observed, 300)
+				return f
+			}
+		}
+		key, _ := jsonStr(cs)
+		c.Ev.Count(hashKey(key), len(cs.Steps) >= 2 && total > 65536, "sequence")
+		return nil
+	})
+
 	// batch runs many single strings through one escaper.
 	batch := func(c *Ctx, esc string, ins []string, label string) bool {
 		r := c.SB.DoOnce(&sb.Req{Op: "escape", Name: esc, Strs: ins, DeadlineMs: 10000})
@@ -332,7 +368,11 @@ func init() {
 			rapid.RuneFrom(nil, unicode.Cc, unicode.Han, unicode.Hebrew, unicode.So),
 			rapid.SampledFrom([]rune{0, 0x7f, 0x80, 0x9f, 0xa0, 0xffff, 0x10000, 0x1F600, 0x10FFFF, 0xFFFFF, 0xfffd}),
 		)
-		strGen := rapid.StringOfN(runeGen, 0, 200, -1)
+		// strings are built from runes and from tokens that look like output of
+		// the escapers themselves (entities, \u and % escapes, CSS escapes)
+		tokens := []string{"&lt;", "&gt;", "&amp;", "&quot;", "&#39;", "&#x27;", "&#60;", "&amp;lt;", "&#xFFFD;", "\\u003C", "\\u00e9", "\\3C ", "\\00003C", "%3C", "%25", "%u003c", "+", "\\n", "\\\\", "</script>", "<!--", "]]>"}
+		pieceGen := rapid.OneOf(rapid.Map(runeGen, func(r rune) string { return string(r) }), rapid.SampledFrom(tokens))
+		strGen := rapid.Map(rapid.SliceOfN(pieceGen, 0, 120), func(ps []string) string { return strings.Join(ps, "") })
 		one.Rapid(c, c.Share(c.Pick(20000, 2000000)), func(t *rapid.T) *c13Case {
 			cs := &c13Case{Esc: rapid.SampledFrom(escapers).Draw(t, "esc"), S: sb.BS(strGen.Draw(t, "s"))}
 			if rapid.Bool().Draw(t, "split") {
@@ -340,6 +380,24 @@ func init() {
 			}
 			if cs.Esc == "url" && rapid.IntRange(0, 3).Draw(t, "bytes") == 0 {
 				cs.S += sb.BS(rapid.SliceOfN(rapid.Byte(), 0, 8).Draw(t, "raw"))
+			}
+			return cs
+		})
+		// sequences: a very large input followed by small ones (state kept
+		// between calls - pooled buffers, caches - must not leak into a result)
+		seq.Rapid(c, c.Share(c.Pick(400, 20000)), func(t *rapid.T) *c13Seq {
+			cs := &c13Seq{}
+			unit := strGen.Draw(t, "unit")
+			if unit == "" {
+				unit = "<&\"'"
+			}
+			n := rapid.IntRange(1, 4).Draw(t, "n")
+			for i := 0; i < n; i++ {
+				s := strGen.Draw(t, "s")
+				if i == 0 || rapid.IntRange(0, 3).Draw(t, "big") == 0 {
+					s = strings.Repeat(unit, 1+rapid.IntRange(20000, 90000).Draw(t, "rep")/len(unit))
+				}
+				cs.Steps = append(cs.Steps, c13Case{Esc: rapid.SampledFrom(escapers).Draw(t, "esc"), S: sb.BS(s)})
 			}
 			return cs
 		})
